@@ -26,14 +26,14 @@ Conform == ActFor(Line.act) /\ last' = Line.act /\ obs' = Line.obs
 
 TraceInit == Init /\ l = 1
 
-Reset == /\ N' = NewNode(Line.act.b, Line.act.snap) /\ rst' = <<-1, -1>>
-         /\ obs' = ObsOf(NewNode(Line.act.b, Line.act.snap), <<>>, <<>>, <<-1, -1>>)
+Reset == /\ N' = NewNode(Line.act.b, Line.act.bq, Line.act.snap) /\ rst' = <<-1, -1>>
+         /\ obs' = ObsOf(NewNode(Line.act.b, Line.act.bq, Line.act.snap), <<>>, <<>>, <<-1, -1>>)
          /\ last' = [a |-> "init"] /\ steps' = 0
          /\ M' = MonNew(Line.act.snap)
 
 FromObs(o, act) ==
-  LET n0 == [b |-> N.b, snap |-> N.snap, ec |-> o.ec, emin |-> o.emin, ebuf |-> [i \in 0..(N.b - 1) |-> o.ebuf[i + 1]],
-             qc |-> o.qc, qmin |-> o.qmin, qbuf |-> [i \in 0..(N.b - 1) |-> o.qbuf[i + 1]],
+  LET n0 == [b |-> N.b, bq |-> N.bq, snap |-> N.snap, ec |-> o.ec, emin |-> o.emin, ebuf |-> [i \in 0..(N.b - 1) |-> o.ebuf[i + 1]],
+             qc |-> o.qc, qmin |-> o.qmin, qbuf |-> [i \in 0..(N.bq - 1) |-> o.qbuf[i + 1]],
              se |-> N.se, sq |-> N.sq, seh |-> N.seh, sqh |-> N.sqh,
              nlq |-> N.nlq + (IF act.a = "lq" THEN 1 ELSE 0), nloc |-> N.nloc] IN
   IF act.a = "restart" THEN [n0 EXCEPT !.se = o.re, !.sq = o.rq, !.seh = {o.re}, !.sqh = {o.rq}]
